@@ -30,7 +30,6 @@ import (
 	"bufio"
 	"context"
 	crand "crypto/rand"
-	"encoding/json"
 	"fmt"
 	"os"
 	"path/filepath"
@@ -79,11 +78,12 @@ type override struct {
 }
 
 type config struct {
-	tracing bool   // Config.Tracing of the serving peer: newRPCServer builds its server differently
-	kind    string // shipped | follower | custom
-	mode    string // raft | crdt
-	raw     []int  // -1 is "*"
-	ops     []int  // +(p+1) Trust(p), -(p+1) Distrust(p)
+	tracing bool     // Config.Tracing of the serving peer: newRPCServer builds its server differently
+	kind    string   // shipped | follower | custom
+	mode    string   // raft | crdt
+	raw     []int    // -1 is "*"
+	srcs    []source // nil: one file with trusted_peers = raw; else the configuration sources (sources.go)
+	ops     []int    // +(p+1) Trust(p), -(p+1) Distrust(p)
 	ovs     []override
 }
 
@@ -350,14 +350,8 @@ type errConfig struct{ err error }
 
 func (e errConfig) Error() string { return "configuration rejected: " + e.err.Error() }
 
-// newCRDT builds a real crdt consensus on a node from a JSON configuration.
-func newCRDT(n *node, name string, trusted []string) (*crdt.Consensus, error) {
-	js, _ := json.Marshal(map[string]interface{}{"cluster_name": name, "trusted_peers": trusted, "rebroadcast_interval": "1s"})
-	cfg := &crdt.Config{}
-	if err := cfg.LoadJSON(js); err != nil {
-		return nil, errConfig{err}
-	}
-	cfg.DatastoreNamespace = "/" + name
+// newCRDTWith starts a real crdt consensus on a node with a configuration (see sources.go).
+func newCRDTWith(n *node, cfg *crdt.Config) (*crdt.Consensus, error) {
 	cc, err := crdt.New(n.h, n.dht, n.psub, cfg, inmem.New())
 	if err != nil {
 		return nil, err
@@ -369,18 +363,6 @@ func newCRDT(n *node, name string, trusted []string) (*crdt.Consensus, error) {
 		return nil, fmt.Errorf("crdt consensus not ready after 30s")
 	}
 	return cc, nil
-}
-
-func (w *world) trustedStrings(raw []int) []string {
-	out := []string{}
-	for _, v := range raw {
-		if v < 0 {
-			out = append(out, "*")
-		} else {
-			out = append(out, peer.Encode(w.pid(v)))
-		}
-	}
-	return out
 }
 
 // consensusFor returns the real consensus component in the state the configuration describes.
@@ -405,7 +387,7 @@ func (w *world) consensusFor(c config) (ipfscluster.Consensus, func(), error) {
 		cons = w.raftC
 	case "crdt":
 		w.seq++
-		cc, err := newCRDT(w.server, fmt.Sprintf("c07-%d-%d-%d", os.Getpid(), worldSeq, w.seq), w.trustedStrings(c.raw))
+		cc, err := startCRDT(w.server, w.ids, fmt.Sprintf("c07-%d-%d-%d", os.Getpid(), worldSeq, w.seq), c.raw, c.srcs)
 		if err != nil {
 			return nil, nil, err
 		}
@@ -594,7 +576,7 @@ func (c config) prefix() string {
 	if c.tracing {
 		tr = "tr1"
 	}
-	return fmt.Sprintf("%s %s %s %s %s", c.kind, tr, c.mode, rawStr(c.raw), opsStr(c.ops))
+	return fmt.Sprintf("%s %s %s %s %s", c.kind, tr, c.mode, srcsStr(c.raw, c.srcs), opsStr(c.ops))
 }
 
 func callerStr(i int) string {
@@ -626,7 +608,10 @@ func (w *world) runConfig(out *common.Out, c config, rpcLines bool, rawEvery int
 		if s.cons.IsTrustedPeer(ctx, w.pid(p)) {
 			b = 1
 		}
-		out.Line("C07 trust %s %s %s 0 %d => %d", c.mode, rawStr(c.raw), opsStr(c.ops), p, b)
+		out.Line("C07 trust %s %s %s 0 %d => %d", c.mode, srcsStr(c.raw, c.srcs), opsStr(c.ops), p, b)
+	}
+	if c.mode == "crdt" {
+		out.Line("%s", cfgLine(w.ids, c.raw, c.srcs))
 	}
 	if c.kind == "custom" {
 		out.Line("C07 valid %s => %s", ovsStr(c.ovs), validate(s.cluster, c))
@@ -696,6 +681,13 @@ var boundary = []config{
 	{tracing: true, kind: "shipped", mode: "raft"},
 	{tracing: true, kind: "follower", mode: "crdt", raw: []int{2}, ops: []int{-3, 2}},
 	{tracing: true, kind: "shipped", mode: "crdt"},
+	// configuration from several sources: an environment list over the defaults / over a file with "*"
+	{kind: "shipped", mode: "crdt", srcs: []source{{kind: 'D'}, {kind: 'E', list: []int{1}}}},
+	{kind: "shipped", mode: "crdt", srcs: []source{{kind: 'L', list: []int{-1}}, {kind: 'E', list: []int{2}}}},
+	{kind: "shipped", mode: "crdt", srcs: []source{{kind: 'D'}}},
+	{kind: "shipped", mode: "crdt", srcs: []source{{kind: 'L', list: []int{1}}, {kind: 'A'}}, ops: []int{-2}},
+	{kind: "shipped", mode: "crdt", srcs: []source{{kind: 'L', list: []int{1}}, {kind: 'E', list: []int{-1}}}},
+	{kind: "shipped", mode: "crdt", srcs: []source{{kind: 'L', list: []int{1, 2}}, {kind: 'E', list: nil}}},
 }
 
 var ovVals = []int{0, 1, 2, 2, 1, 0, 3, -1, 7}
@@ -712,6 +704,22 @@ func genConfig(r *common.Rng, w *world, k int) config {
 		c.ovs = followerOvs()
 	}
 	return c
+}
+
+// genList draws a configured list: mostly the callers, sometimes id-only peers, the serving peer, "*", repeats
+func genList(r *common.Rng) []int {
+	var l []int
+	for n := r.Intn(5); n > 0; n-- {
+		switch x := r.Intn(20); {
+		case x == 0:
+			l = append(l, -1)
+		case x < 14:
+			l = append(l, r.Range(1, nClients))
+		default:
+			l = append(l, r.Intn(universe))
+		}
+	}
+	return l
 }
 
 func genConfig0(r *common.Rng, w *world, k int) config {
@@ -732,18 +740,13 @@ func genConfig0(r *common.Rng, w *world, k int) config {
 		c.mode = "raft"
 	}
 	c.tracing = r.Chance(2, 5)
-	// configured list: mostly the callers, sometimes id-only peers, the serving peer, "*", repeats
-	for n := r.Intn(5); n > 0; n-- {
-		switch x := r.Intn(20); {
-		case x == 0:
-			c.raw = append(c.raw, -1)
-		case x < 14:
-			c.raw = append(c.raw, r.Range(1, nClients))
-		default:
-			c.raw = append(c.raw, r.Intn(universe))
-		}
-	}
+	c.raw = genList(r)
 	if c.mode == "raft" && r.Bool() {
+		c.raw = nil
+	}
+	if c.mode == "crdt" && r.Chance(2, 5) {
+		// the configuration comes from several sources (defaults, file, environment)
+		c.srcs = genSrcs(r, func() []int { return genList(r) })
 		c.raw = nil
 	}
 	nops := r.Intn(6)
@@ -786,7 +789,7 @@ func configOfLine(f []string) (config, error) {
 			return c, fmt.Errorf("rpc arity")
 		}
 		c.kind, c.tracing, c.mode = f[1], f[2] == "tr1", f[3]
-		if c.raw, err = parseRaw(f[4]); err != nil {
+		if c.raw, c.srcs, err = parseSrcs(f[4]); err != nil {
 			return c, err
 		}
 		if c.ops, err = parseOps(f[5]); err != nil {
@@ -800,7 +803,7 @@ func configOfLine(f []string) (config, error) {
 			return c, fmt.Errorf("trust arity")
 		}
 		c.kind, c.mode = "shipped", f[1]
-		if c.raw, err = parseRaw(f[2]); err != nil {
+		if c.raw, c.srcs, err = parseSrcs(f[2]); err != nil {
 			return c, err
 		}
 		if c.ops, err = parseOps(f[3]); err != nil {
@@ -817,7 +820,7 @@ func configOfLine(f []string) (config, error) {
 	default:
 		return c, fmt.Errorf("kind %q", f[0])
 	}
-	for _, v := range append(append([]int{}, c.raw...), absAll(c.ops)...) {
+	for _, v := range append(srcPeerIdx(c.raw, c.srcs), absAll(c.ops)...) {
 		if v >= universe {
 			return c, fmt.Errorf("peer index %d out of range", v)
 		}
@@ -859,6 +862,23 @@ func (w *world) replayAuth(out *common.Out) {
 			f = f[1:]
 		}
 		if len(f) == 0 {
+			continue
+		}
+		if f[0] == "cfg" {
+			if len(f) < 2 {
+				out.Line("C07 %s => unparsable", strings.Join(f, " "))
+				continue
+			}
+			raw, srcs, err := parseSrcs(f[1])
+			bad := err != nil
+			for _, v := range srcPeerIdx(raw, srcs) {
+				bad = bad || v >= universe
+			}
+			if bad {
+				out.Line("C07 %s => unparsable", strings.Join(f, " "))
+				continue
+			}
+			out.Line("%s", cfgLine(w.ids, raw, srcs))
 			continue
 		}
 		c, err := configOfLine(f)
@@ -982,7 +1002,7 @@ func main() {
 		full := k < len(boundary) || k%4 == 0
 		if err := w.runConfig(out, c, full, 7, r); err != nil {
 			if _, ok := err.(errConfig); ok {
-				out.Line("C07 trust %s %s %s 0 0 => cfgerr", c.mode, rawStr(c.raw), opsStr(c.ops))
+				out.Line("C07 trust %s %s %s 0 0 => cfgerr", c.mode, srcsStr(c.raw, c.srcs), opsStr(c.ops))
 			} else {
 				out.Line("# inconclusive C07 config %d %s (setup: %v)", k, c.prefix(), err)
 			}
